@@ -12,6 +12,7 @@ import (
 	"encoding/json"
 	"flag"
 	"fmt"
+	"io"
 	"math"
 	"os"
 	"strconv"
@@ -507,6 +508,11 @@ func main() {
 			return err == nil && g.Equal(t)
 		})
 		du := time.Duration(int64(r.Next()) >> uint(r.Below(40)))
+		if i < 12 {
+			// boundary durations: zero, one unit each way, whole units, extremes
+			du = []time.Duration{0, 1, -1, time.Second, -time.Second, time.Millisecond, time.Minute, time.Hour, 24 * time.Hour,
+				math.MaxInt64, math.MinInt64 + 1, 1500 * time.Millisecond}[i]
+		}
 		o = m2b(graphql.MarshalDuration(du))
 		rtAny("Duration", du.String(), o, func(d any) bool { g, err := graphql.UnmarshalDuration(d); return err == nil && g == du })
 		var raw [16]byte
@@ -570,6 +576,65 @@ func main() {
 				verdict = "unencodable-value-written-as-non-json"
 			}
 			fmt.Fprintf(out, "o\t%s-unencodable\t%s\t%s\t%s\n", kind, u.name, hx(b.Bytes()), verdict)
+		}
+	}
+	// Omittable[T] in output position: set (to a value, to nil) and UNSET, through both marshal flavours, alone and
+	// as list elements: every one writes exactly one JSON text (an unset one writes the zero value / null)
+	{
+		str := "x"
+		type ctxm interface {
+			MarshalGQLContext(ctx context.Context, w io.Writer)
+		}
+		type om struct {
+			name string
+			m    graphql.Marshaler
+			cm   ctxm
+		}
+		mk := func(name string, v interface {
+			graphql.Marshaler
+			ctxm
+		}) om {
+			return om{name, v, v}
+		}
+		oms := []om{
+			mk("unset-string", graphql.Omittable[string]{}), mk("set-string", graphql.OmittableOf("a\"b")),
+			mk("unset-int", graphql.Omittable[int]{}), mk("set-int", graphql.OmittableOf(7)),
+			mk("unset-bool", graphql.Omittable[bool]{}), mk("unset-ptr", graphql.Omittable[*string]{}),
+			mk("set-nil-ptr", graphql.OmittableOf[*string](nil)), mk("set-ptr", graphql.OmittableOf(&str)),
+			mk("unset-slice", graphql.Omittable[[]int]{}), mk("set-slice", graphql.OmittableOf([]int{1, 2})),
+			mk("unset-map", graphql.Omittable[map[string]any]{}), mk("set-map", graphql.OmittableOf(map[string]any{"k": 1})),
+		}
+		ctx := graphql.WithResponseContext(context.Background(), graphql.DefaultErrorPresenter, graphql.DefaultRecover)
+		for _, o := range oms {
+			for _, flavour := range []string{"MarshalGQL", "MarshalGQLContext", "in-array", "in-array-context"} {
+				var b bytes.Buffer
+				note := ""
+				func() {
+					defer func() {
+						if r := recover(); r != nil {
+							note = fmt.Sprint("panic: ", r)
+						}
+					}()
+					switch flavour {
+					case "MarshalGQL":
+						o.m.MarshalGQL(&b)
+					case "MarshalGQLContext":
+						o.cm.MarshalGQLContext(ctx, &b)
+					case "in-array":
+						graphql.Array{graphql.MarshalInt(1), o.m, graphql.MarshalInt(2)}.MarshalGQL(&b)
+					default:
+						cm := o.cm
+						graphql.Array{graphql.MarshalInt(1), graphql.WriterFunc(func(w io.Writer) { cm.MarshalGQLContext(ctx, w) }), graphql.MarshalInt(2)}.MarshalGQL(&b)
+					}
+				}()
+				verdict := "ok"
+				if note != "" {
+					verdict = "omittable-" + note
+				} else if !json.Valid(b.Bytes()) || b.Len() == 0 {
+					verdict = "omittable-written-as-non-json"
+				}
+				fmt.Fprintf(out, "o\tOmittable-%s\t%s\t%s\t%s\n", flavour, o.name, hx(b.Bytes()), verdict)
+			}
 		}
 	}
 	// framing
